@@ -36,7 +36,7 @@ pub fn gen_world(seed: u64, idx: u64, s: &dyn SuiteOps) -> World {
     let mut pw2 = pw.clone();
     pw2.push(b'.');
     let pairs = cred_pairs(&mut g);
-    let (c1, c2) = pairs[(idx as usize) % pairs.len()].clone();
+    let (c1, c2) = pairs[(crate::driver::fnv(s.name().as_bytes()) as usize % pairs.len() + idx as usize) % pairs.len()].clone();
     let ksf = gen_ksf(&mut g, fam, true);
     // (setup, password, cred)
     let plan: Vec<(u32, &Vec<u8>, &Vec<u8>)> = vec![(s1, &pw, &c1), (s1, &pw, &c1), (s1, &pw, &c2), (s2, &pw, &c1), (s1, &pw2, &c1), (s3, &pw, &c1), (s3, &pw, &c2)];
